@@ -122,6 +122,9 @@ inductive Act
   | drainErrors
   | drainSink
   | setMd5
+  /-- `set_block_sizes(block_size, block_size)?` after the frames were added / `set_total_samples(..)` -/
+  | setBlockSizes
+  | setTotalSamples
   /-- set-up only (no step in the protocol semantics) -/
   | newChan (c : Chan) (cap : Count)
   | pushBuffer
@@ -183,6 +186,9 @@ structure Thr where
   encRes : Option OutFrame := none
   /-- hasher: `data` -/
   data : List Nat := []
+  /-- main: the final STREAMINFO updates were made -/
+  sizesSet : Bool := false
+  totalSet : Bool := false
 
 structure Shared where
   refillQ : List Nat
@@ -355,6 +361,8 @@ def doAct (env : Env) (v : View) (t : Thr) (sh : Shared) (k : List Stmt) : Act â
   | .drainErrors => tau { t with cont := k, firstErr := !sh.errors.isEmpty } sh
   | .drainSink => tau { t with cont := k, frames := sh.sink.map (Â·.2) } sh
   | .setMd5 => tau { t with cont := k, digest := sh.hashed } sh
+  | .setBlockSizes => tau { t with cont := k, sizesSet := true } sh
+  | .setTotalSamples => tau { t with cont := k, totalSet := true } sh
   | .newChan _ _ => none
   | .pushBuffer => none
   | .newSink _ => none
